@@ -122,6 +122,80 @@ mut("c13-silent-readfull", "C13", "cmd/cache/header.go",
 mut("c13-silent-named-const", "C13", "cmd/cache/file.go", "f.Seek(int64(size)*3, io.SeekStart)", "f.Seek(int64(size)*headerFields, io.SeekStart)",
     silent=True, old2="// File represents a cache file.", new2="const headerFields = 3\n\n// File represents a cache file.")
 
+# ---------------------------------------------------------------- C02..C05, C15 (conserve)
+mut("c02-fmap-guest-skip-source", "C02", "sequence.go",
+    "\tfor _, f := range guest.Features() {\n\t\tf.Loc = f.Loc.Expand(0, index)\n\t\tff = ff.Insert(f)\n\t}\n\thost = WithFeatures(host, ff)\n\n\tp := insert(host.Bytes(), index, guest.Bytes())\n\thost = WithBytes(host, p)\n\n\treturn host\n}\n\n// Embed",
+    "\tfor _, f := range guest.Features() {\n\t\tif f.Key == \"source\" {\n\t\t\tcontinue\n\t\t}\n\t\tf.Loc = f.Loc.Expand(0, index)\n\t\tff = ff.Insert(f)\n\t}\n\thost = WithFeatures(host, ff)\n\n\tp := insert(host.Bytes(), index, guest.Bytes())\n\thost = WithBytes(host, p)\n\n\treturn host\n}\n\n// Embed",
+    ["FMAP|gts.Insert|features-loop#2"])
+mut("c02-fmap-embed-conditional-sink", "C02", "sequence.go",
+    "\t\tf.Loc = f.Loc.Expand(index, Len(guest))\n\t\tff = ff.Insert(f)\n", "\t\tf.Loc = f.Loc.Expand(index, Len(guest))\n\t\tif f.Loc.Len() > 0 {\n\t\t\tff = ff.Insert(f)\n\t\t}\n",
+    ["FMAP|gts.Embed|features-loop#1"])
+mut("c02-fmap-guest-not-looped", "C02", "sequence.go",
+    "\tfor _, f := range guest.Features() {\n\t\tf.Loc = f.Loc.Expand(0, index)\n\t\tff = ff.Insert(f)\n\t}\n\thost = WithFeatures(host, ff)\n\n\tp := insert(host.Bytes(), index, guest.Bytes())\n\thost = WithBytes(host, p)\n\n\treturn host\n}\n\n// Delete",
+    "\thost = WithFeatures(host, ff)\n\n\tp := insert(host.Bytes(), index, guest.Bytes())\n\thost = WithBytes(host, p)\n\n\treturn host\n}\n\n// Delete",
+    ["FMAP|gts.Embed|input#2"])
+mut("c02-fmap-loc-from-other", "C02", "sequence.go", "\t\tf.Loc = f.Loc.Shift(index, Len(guest))\n", "\t\tf.Loc = Point(index)\n", ["FMAP|gts.Insert|features-loop#1"])
+mut("c02-fill-shift-skips-first", "C02", "location.go",
+    "\tlocs := make([]Location, len(joined))\n\tfor j, loc := range joined {\n\t\tlocs[j] = loc.Shift(i, n)\n\t}",
+    "\tlocs := make([]Location, len(joined))\n\tfor j, loc := range joined {\n\t\tif j == 0 {\n\t\t\tcontinue\n\t\t}\n\t\tlocs[j] = loc.Shift(i, n)\n\t}",
+    ["FILL|gts.Joined.Shift"])
+mut("c03-mustpass-no-linear", "C03", "sequence.go", "\tseq = WithTopology(seq, Linear)\n\n\treturn seq\n", "\treturn seq\n", ["MUST-PASS|gts.Slice|return#2"])
+mut("c03-mustpass-circular", "C03", "sequence.go", "\tseq = WithTopology(seq, Linear)\n\n\treturn seq\n", "\tseq = WithTopology(seq, Circular)\n\n\treturn seq\n", ["MUST-PASS|gts.Slice|return#2"])
+mut("c03-fmap-delete-drops", "C03", "sequence.go",
+    "\t\tf.Loc = f.Loc.Expand(offset, -length)\n\t\tff[i] = f\n", "\t\tif f.Loc.Len() == 0 {\n\t\t\tcontinue\n\t\t}\n\t\tf.Loc = f.Loc.Expand(offset, -length)\n\t\tff[i] = f\n",
+    ["FMAP|gts.Delete|features-loop#1"])
+mut("c03-fmap-slice-key-rewritten", "C03", "sequence.go", "\t\tff[i].Loc = loc\n", "\t\tff[i].Loc = loc\n\t\tf.Key = \"misc_feature\"\n\t\tff[i].Key = f.Key\n", ["FMAP|gts.Slice|features-loop#1"])
+mut("c04-fill-normalize-partial", "C04", "location.go",
+    "\tll := make([]Location, len(ordered))\n\tfor i, l := range ordered {\n\t\tll[i] = l.Normalize(length)\n\t}",
+    "\tll := make([]Location, len(ordered))\n\tfor i, l := range ordered[1:] {\n\t\tll[i] = l.Normalize(length)\n\t}",
+    ["FILL|gts.Ordered.Normalize"])
+mut("c04-fmap-rotate-props", "C04", "sequence.go", "\t\tf.Loc = f.Loc.Expand(0, n).Normalize(Len(seq))\n", "\t\tf.Loc = f.Loc.Expand(0, n).Normalize(Len(seq))\n\t\tf.Props = nil\n", ["FMAP|gts.Rotate|features-loop#1"])
+mut("c05-fill-reverse-lt", "C05", "location.go",
+    "func (joined Joined) Reverse(length int) Location {\n\tll := make([]Location, len(joined))\n\tfor l, r := 0, len(ll)-1; l <= r; l, r = l+1, r-1 {",
+    "func (joined Joined) Reverse(length int) Location {\n\tll := make([]Location, len(joined))\n\tfor l, r := 0, len(ll)-1; l < r; l, r = l+1, r-1 {",
+    ["FILL|gts.Joined.Reverse"])
+mut("c05-fill-regions-complement-index", "C05", "region.go", "ret[len(rr)-i-1] = r.Complement()", "ret[len(rr)-i] = r.Complement()", ["FILL|gts.Regions.Complement"],
+    note="would also panic at run time; the rule reports the index form")
+mut("c05-fmap-reverse-key", "C05", "sequence.go", "ff = ff.Insert(Feature{f.Key, f.Loc.Reverse(Len(seq)), f.Props.Clone()})", "ff = ff.Insert(Feature{\"misc_feature\", f.Loc.Reverse(Len(seq)), f.Props.Clone()})", ["FMAP|gts.Reverse|features-loop#1"])
+mut("c05-fmap-concat-head-dropped", "C05", "sequence.go", "ff := append(FeatureSlice(nil), head.Features()...)", "ff := FeatureSlice(nil)", ["FMAP|gts.Concat|all-arguments"])
+mut("c05-silent-reverse-ge", "C05", "location.go",
+    "func (ordered Ordered) Reverse(length int) Location {\n\tll := make([]Location, len(ordered))\n\tfor l, r := 0, len(ll)-1; l <= r; l, r = l+1, r-1 {",
+    "func (ordered Ordered) Reverse(length int) Location {\n\tll := make([]Location, len(ordered))\n\tfor l, r := 0, len(ll)-1; r >= l; l, r = l+1, r-1 {",
+    silent=True)
+mut("c05-silent-reverse-range", "C05", "location.go",
+    "func (joined Joined) Reverse(length int) Location {\n\tll := make([]Location, len(joined))\n\tfor l, r := 0, len(ll)-1; l <= r; l, r = l+1, r-1 {\n\t\tll[l], ll[r] = joined[r].Reverse(length), joined[l].Reverse(length)\n\t}",
+    "func (joined Joined) Reverse(length int) Location {\n\tll := make([]Location, len(joined))\n\tfor i, loc := range joined {\n\t\tll[len(joined)-1-i] = loc.Reverse(length)\n\t}",
+    silent=True, note="an equivalent mirrored range loop is accepted")
+mut("c15-locate-on-edited", "C15", "cmd/gts/insert.go",
+    "\t\t\tfor _, index := range indices {\n\t\t\t\tout = insert(out, index, guest)\n\t\t\t}",
+    "\t\t\tfor k := range indices {\n\t\t\t\tout = insert(out, locate(out)[len(indices)-1-k].Head(), guest)\n\t\t\t}",
+    ["INPUT-COORD|main.insertFunc"])
+mut("c15-delete-relocate", "C15", "cmd/gts/delete.go",
+    "\t\t\ti, n := s.Head(), s.Len()\n\t\t\tseq = delete(seq, i, n)\n", "\t\t\ti, n := s.Head(), s.Len()\n\t\t\tseq = delete(seq, i, n)\n\t\t\t_ = locate(seq)\n",
+    ["INPUT-COORD|main.deleteFunc"])
+mut("c15-silent-copy-first", "C15", "cmd/gts/rotate.go", "\t\trr := locate(seq)\n", "\t\torig := gts.Sequence(gts.Copy(seq))\n\t\trr := locate(orig)\n", silent=True)
+
+# ---------------------------------------------------------------- E7 orders + FILTER (C03, C09, C19)
+mut("c03-e7-overlap-le", "C03", "location.go", "return s < u && l < e", "return s <= u && l < e", ["E7-INTERVAL|gts.rangeOverlap"])
+mut("c03-e7-within-lt", "C03", "location.go", "return l <= s && e <= u", "return l < s && e <= u", ["E7-INTERVAL|gts.rangeWithin"])
+mut("c03-e7-overlap-no-normalise", "C03", "location.go",
+    "func rangeOverlap(s, e, l, u int) bool {\n\tif e < s {\n\t\ts, e = e, s\n\t}", "func rangeOverlap(s, e, l, u int) bool {\n\tif e < s {\n\t\ts, e = s, e\n\t}", ["E7-INTERVAL|gts.rangeOverlap"])
+mut("c03-e7-arith", "C03", "location.go", "return l <= s && e <= u", "return l <= s && e-u <= 0", ["E7-INTERVAL|gts.rangeWithin"], note="arithmetic on inputs leaves the fragment: undecided, fails closed")
+mut("c09-e7-less-le", "C09", "region.go", "\tif l[0] < r[0] {\n\t\treturn true\n\t}", "\tif l[0] <= r[0] {\n\t\treturn true\n\t}", ["E7-SWO|gts.BySegment.Less"])
+mut("c09-e7-less-no-swap-r", "C09", "region.go", "\tif r[1] < r[0] {\n\t\tr[0], r[1] = r[1], r[0]\n\t}\n", "", ["E7-SWO|gts.BySegment.Less"])
+mut("c09-e7-less-ignores-high", "C09", "region.go", "\tif l[1] < r[1] {\n\t\treturn true\n\t}\n\treturn false\n}", "\treturn false\n}", ["E7-SWO|gts.BySegment.Less"])
+mut("c09-e7-max", "C09", "utils.go", "func Max(i, j int) int {\n\tif j < i {", "func Max(i, j int) int {\n\tif i < j {", ["E7-UTIL|gts.Max"])
+mut("c09-silent-less-rewrite", "C09", "region.go",
+    "\tif l[0] < r[0] {\n\t\treturn true\n\t}\n\tif r[0] < l[0] {\n\t\treturn false\n\t}\n\tif l[1] < r[1] {\n\t\treturn true\n\t}\n\treturn false\n}",
+    "\tif l[0] != r[0] {\n\t\treturn l[0] < r[0]\n\t}\n\treturn l[1] < r[1]\n}", silent=True, note="an equivalent formulation of the same order")
+mut("c19-e7-cmp-sign", "C19", "location.go", "\tcase s2 < s1:\n\t\treturn 1", "\tcase s2 < s1:\n\t\treturn -1", ["E7-CMP|gts.rangeCompare"])
+mut("c19-e7-cmp-drop-end", "C19", "location.go", "\tcase e1 < e2:\n\t\treturn -1\n", "", ["E7-CMP|gts.rangeCompare"])
+mut("c19-filter-negated", "C19", "feature.go", "if filter(NewFeature(f.Key, f.Loc, f.Props)) {", "if !filter(NewFeature(f.Key, f.Loc, f.Props)) {", ["FILTER|gts.FeatureSlice.Filter|keep"])
+mut("c19-filter-wrong-elem", "C19", "feature.go", "\t\tgg[i] = ff[index]\n", "\t\tgg[i] = ff[i]\n\t\t_ = index\n", ["FILTER|gts.FeatureSlice.Filter|result"])
+mut("c19-silent-filter-direct", "C19", "feature.go",
+    "\tindices := make([]int, 0, len(ff))\n\tfor i, f := range ff {\n\t\tif filter(NewFeature(f.Key, f.Loc, f.Props)) {\n\t\t\tindices = append(indices, i)\n\t\t}\n\t}\n\tgg := make(FeatureSlice, len(indices))\n\tfor i, index := range indices {\n\t\tgg[i] = ff[index]\n\t}\n\treturn gg\n",
+    "\tgg := make(FeatureSlice, 0, len(ff))\n\tfor i, f := range ff {\n\t\tif filter(f) {\n\t\t\tgg = append(gg, ff[i])\n\t\t}\n\t}\n\treturn gg\n", silent=True)
+
 if __name__ == "__main__":
     here = os.path.dirname(os.path.abspath(__file__))
     ids = [m["id"] for m in M]
